@@ -349,88 +349,211 @@ theorem notifs_view (f g : Forest) (us : List (List Nat × TState)) (h : critVie
 
 /-! ### notify / setLeaf frame lemmas -/
 
-theorem notify_frame (s : Sys) (v : Option TState) (r : Bool) :
-    (notify s v r).env = s.env ∧ (notify s v r).f = s.f ∧ (notify s v r).inflight = s.inflight ∧
-    (notify s v r).stopReq = s.stopReq ∧ (notify s v r).hooks = s.hooks ∧ (notify s v r).log = s.log ∧
-    (notify s v r).roleOnly = s.roleOnly ∧ (notify s v r).updq = s.updq := by
-  unfold notify
+theorem react_frame (c : Cfg) (s : Sys) (v : TState) :
+    (react c s v).env = s.env ∧ (react c s v).f = s.f ∧ (react c s v).inflight = s.inflight ∧
+    (react c s v).stopReq = s.stopReq ∧ (react c s v).hooks = s.hooks ∧ (react c s v).log = s.log ∧
+    (react c s v).roleOnly = s.roleOnly ∧ (react c s v).updq = s.updq ∧ (react c s v).chan = s.chan ∧
+    (react c s v).dropped = s.dropped := by
+  unfold react
+  simp only
   repeat' split
   all_goals simp
 
-theorem notify_w_not_parked (s : Sys) (v : Option TState) (r : Bool) (h : s.w ≠ .parked) :
-    (notify s v r).w = s.w ∧ (notify s v r).dropped = s.dropped := by
-  unfold notify
-  split
-  · rename_i hw; exact absurd hw h
-  · exact ⟨rfl, rfl⟩
-
-theorem notify_weight_le (s : Sys) (v : Option TState) (r : Bool) : (notify s v r).w.weight ≤ s.w.weight := by
-  unfold notify
+theorem react_weight (c : Cfg) (s : Sys) (v : TState) : (react c s v).w.weight ≤ 2 := by
+  unfold react
+  simp only
   repeat' split
-  all_goals simp_all [Watch.weight]
+  all_goals simp [Watch.weight]
 
-theorem notify_error_ready (s : Sys) (h : s.w = .parked) : (notify s (some .ERROR) true).w = .armed := by
-  unfold notify; rw [h]; simp
+theorem react_error (c : Cfg) (s : Sys) : (react c s .ERROR).w = .armed := by
+  unfold react; simp
 
-theorem notify_error_busy (s : Sys) (h : s.w = .parked) :
-    (notify s (some .ERROR) false).w = .parked ∧ (notify s (some .ERROR) false).dropped = s.dropped + 1 := by
-  unfold notify; rw [h]; simp
+/-- The re-read: whatever stale value was received, a root in ERROR arms the watcher. -/
+theorem react_reread (c : Cfg) (s : Sys) (v : TState) (hr : c.reread = true) (h : rootState s.f = .ERROR) :
+    (react c s v).w = .armed := by
+  unfold react
+  cases v <;> simp [hr, h]
 
-theorem notify_none (s : Sys) (r : Bool) : notify s none r = s := by
+theorem notify_frame (c : Cfg) (s : Sys) (v : Option TState) (r : Bool) :
+    (notify c s v r).env = s.env ∧ (notify c s v r).f = s.f ∧ (notify c s v r).inflight = s.inflight ∧
+    (notify c s v r).stopReq = s.stopReq ∧ (notify c s v r).hooks = s.hooks ∧ (notify c s v r).log = s.log ∧
+    (notify c s v r).roleOnly = s.roleOnly ∧ (notify c s v r).updq = s.updq := by
+  cases v with
+  | none => exact ⟨rfl, rfl, rfl, rfl, rfl, rfl, rfl, rfl⟩
+  | some st =>
+    unfold notify
+    simp only
+    cases hb : c.buffered
+    · simp only [Bool.false_eq_true, if_false]
+      cases hw : s.w with
+      | parked =>
+        simp only
+        cases r
+        · simp only [Bool.false_eq_true, if_false]; split <;> simp
+        · simp only [if_true]
+          obtain ⟨a, b, d, e, f, g, h, i, _, _⟩ := react_frame c s st
+          exact ⟨a, b, d, e, f, g, h, i⟩
+      | holding _ => simp
+      | armed => simp
+      | gone => simp
+    · simp only [if_true]
+      repeat' split
+      all_goals simp
+
+theorem notify_none (c : Cfg) (s : Sys) (r : Bool) : notify c s none r = s := by
   unfold notify; rfl
 
-theorem setLeaf_frame (s : Sys) (p : List Nat) (v : TState) (r : Bool) :
-    (setLeaf s p v r).env = s.env ∧ (setLeaf s p v r).inflight = s.inflight ∧
-    (setLeaf s p v r).stopReq = s.stopReq ∧ (setLeaf s p v r).hooks = s.hooks ∧ (setLeaf s p v r).log = s.log ∧
-    (setLeaf s p v r).updq = s.updq := by
+/-- Once the watcher has left its loop nothing is delivered, kept or counted. -/
+theorem notify_left (c : Cfg) (s : Sys) (v : Option TState) (r : Bool) (h : s.w.inLoop = false) :
+    notify c s v r = s := by
+  unfold notify
+  cases v with
+  | none => rfl
+  | some st =>
+    simp only [h]
+    cases hw : s.w <;> simp_all [Watch.inLoop]
+
+theorem notify_w_not_parked (c : Cfg) (s : Sys) (v : Option TState) (r : Bool) (h : s.w ≠ .parked) :
+    (notify c s v r).w = s.w := by
+  cases v with
+  | none => rfl
+  | some st =>
+    unfold notify
+    simp only
+    cases hb : c.buffered
+    · simp only [Bool.false_eq_true, if_false]
+    · simp only [if_true]
+      repeat' split
+      all_goals rfl
+
+theorem notify_weight_le (c : Cfg) (s : Sys) (v : Option TState) (r : Bool) :
+    (notify c s v r).w.weight ≤ s.w.weight := by
+  unfold notify
+  repeat' split
+  all_goals first
+    | exact Nat.le_refl _
+    | (rename_i hw _; rw [hw]; exact react_weight c s _)
+
+/-- Unbuffered channel, watcher at its receive: the ERROR arms it. -/
+theorem notify_error_ready (c : Cfg) (s : Sys) (hb : c.buffered = false) (h : s.w = .parked) :
+    (notify c s (some .ERROR) true).w = .armed := by
+  unfold notify; simp only [hb, h]; exact react_error c s
+
+/-- Unbuffered channel, watcher away from its receive: the ERROR is dropped. -/
+theorem notify_error_busy (c : Cfg) (s : Sys) (hb : c.buffered = false) (h : s.w = .parked) :
+    (notify c s (some .ERROR) false).w = .parked ∧ (notify c s (some .ERROR) false).dropped = s.dropped + 1 := by
+  unfold notify; simp [hb, h]
+
+/-- `s'` differs from `s`, as far as the watcher is concerned, at most by a value that was
+    put into its EMPTY channel. -/
+def Keeps (s s' : Sys) : Prop := s'.w = s.w ∧ (s.chan.isSome = true → s'.chan = s.chan)
+
+theorem Keeps.refl (s : Sys) : Keeps s s := ⟨rfl, fun _ => rfl⟩
+
+theorem Keeps.trans {a b d : Sys} (h1 : Keeps a b) (h2 : Keeps b d) : Keeps a d :=
+  ⟨h2.1.trans h1.1, fun h => by
+    have hb := h1.2 h
+    rw [← hb]
+    exact h2.2 (by rw [hb]; exact h)⟩
+
+/-- Buffered channel: a send never moves the watcher and never replaces a waiting value. -/
+theorem notify_keeps (c : Cfg) (s : Sys) (v : Option TState) (r : Bool) (hb : c.buffered = true) :
+    Keeps s (notify c s v r) := by
+  unfold notify Keeps
+  simp only [hb]
+  repeat' split
+  all_goals simp_all
+
+/-- Buffered channel, watcher in its loop with an empty channel: the value is kept. -/
+theorem notify_kept (c : Cfg) (s : Sys) (st : TState) (r : Bool) (hb : c.buffered = true)
+    (hw : s.w.inLoop = true) (hc : s.chan = none) : (notify c s (some st) r).chan = some st := by
+  unfold notify; simp [hb, hw, hc]
+
+theorem setLeaf_frame (c : Cfg) (s : Sys) (p : List Nat) (v : TState) (r : Bool) :
+    (setLeaf c s p v r).env = s.env ∧ (setLeaf c s p v r).inflight = s.inflight ∧
+    (setLeaf c s p v r).stopReq = s.stopReq ∧ (setLeaf c s p v r).hooks = s.hooks ∧ (setLeaf c s p v r).log = s.log ∧
+    (setLeaf c s p v r).updq = s.updq := by
   unfold setLeaf
   simp only
-  obtain ⟨h1, _, h3, h4, h5, h6, _, h8⟩ := notify_frame { s with f := (updState s.f p v).1, roleOnly := s.roleOnly.filter (fun x => x.1 != p) } (updState s.f p v).2 r
+  obtain ⟨h1, _, h3, h4, h5, h6, _, h8⟩ := notify_frame c { s with f := (updState s.f p v).1, roleOnly := s.roleOnly.filter (fun x => x.1 != p) } (updState s.f p v).2 r
   exact ⟨h1, h3, h4, h5, h6, h8⟩
 
-theorem setLeaf_w_not_parked (s : Sys) (p : List Nat) (v : TState) (r : Bool) (h : s.w ≠ .parked) :
-    (setLeaf s p v r).w = s.w := by
+theorem setLeaf_w_not_parked (c : Cfg) (s : Sys) (p : List Nat) (v : TState) (r : Bool) (h : s.w ≠ .parked) :
+    (setLeaf c s p v r).w = s.w := by
   unfold setLeaf
   simp only
-  exact (notify_w_not_parked { s with f := (updState s.f p v).1, roleOnly := s.roleOnly.filter (fun x => x.1 != p) } _ _ h).1
+  exact notify_w_not_parked c { s with f := (updState s.f p v).1, roleOnly := s.roleOnly.filter (fun x => x.1 != p) } _ _ h
 
-theorem setLeaf_weight_le (s : Sys) (p : List Nat) (v : TState) (r : Bool) :
-    (setLeaf s p v r).w.weight ≤ s.w.weight := by
+theorem setLeaf_left (c : Cfg) (s : Sys) (p : List Nat) (v : TState) (r : Bool) (h : s.w.inLoop = false) :
+    (setLeaf c s p v r).w = s.w ∧ (setLeaf c s p v r).chan = s.chan := by
   unfold setLeaf
   simp only
-  exact notify_weight_le _ _ _
+  rw [notify_left c { s with f := (updState s.f p v).1, roleOnly := s.roleOnly.filter (fun x => x.1 != p) } _ _ h]
+  exact ⟨rfl, rfl⟩
 
-theorem setLeaves_frame (s : Sys) (ps : List (List Nat)) (v : TState) (r : Bool) :
-    (setLeaves s ps v r).env = s.env ∧ (setLeaves s ps v r).inflight = s.inflight ∧
-    (setLeaves s ps v r).stopReq = s.stopReq ∧ (setLeaves s ps v r).hooks = s.hooks ∧ (setLeaves s ps v r).log = s.log ∧
-    (setLeaves s ps v r).updq = s.updq := by
+theorem setLeaf_weight_le (c : Cfg) (s : Sys) (p : List Nat) (v : TState) (r : Bool) :
+    (setLeaf c s p v r).w.weight ≤ s.w.weight := by
+  unfold setLeaf
+  simp only
+  exact notify_weight_le _ _ _ _
+
+theorem setLeaf_keeps (c : Cfg) (s : Sys) (p : List Nat) (v : TState) (r : Bool) (hb : c.buffered = true) :
+    Keeps s (setLeaf c s p v r) := by
+  unfold setLeaf
+  simp only
+  exact notify_keeps c { s with f := (updState s.f p v).1, roleOnly := s.roleOnly.filter (fun x => x.1 != p) } _ _ hb
+
+theorem setLeaves_frame (c : Cfg) (s : Sys) (ps : List (List Nat)) (v : TState) (r : Bool) :
+    (setLeaves c s ps v r).env = s.env ∧ (setLeaves c s ps v r).inflight = s.inflight ∧
+    (setLeaves c s ps v r).stopReq = s.stopReq ∧ (setLeaves c s ps v r).hooks = s.hooks ∧ (setLeaves c s ps v r).log = s.log ∧
+    (setLeaves c s ps v r).updq = s.updq := by
   unfold setLeaves
   induction ps generalizing s with
   | nil => simp
   | cons p ps ih =>
     simp only [List.foldl_cons]
-    obtain ⟨a1, a2, a3, a4, a5, a6⟩ := ih (setLeaf s p v r)
-    obtain ⟨b1, b2, b3, b4, b5, b6⟩ := setLeaf_frame s p v r
+    obtain ⟨a1, a2, a3, a4, a5, a6⟩ := ih (setLeaf c s p v r)
+    obtain ⟨b1, b2, b3, b4, b5, b6⟩ := setLeaf_frame c s p v r
     exact ⟨a1.trans b1, a2.trans b2, a3.trans b3, a4.trans b4, a5.trans b5, a6.trans b6⟩
 
-theorem setLeaves_w_not_parked (s : Sys) (ps : List (List Nat)) (v : TState) (r : Bool) (h : s.w ≠ .parked) :
-    (setLeaves s ps v r).w = s.w := by
+theorem setLeaves_w_not_parked (c : Cfg) (s : Sys) (ps : List (List Nat)) (v : TState) (r : Bool) (h : s.w ≠ .parked) :
+    (setLeaves c s ps v r).w = s.w := by
   unfold setLeaves
   induction ps generalizing s with
   | nil => rfl
   | cons p ps ih =>
     simp only [List.foldl_cons]
-    have h1 := setLeaf_w_not_parked s p v r h
-    rw [ih (setLeaf s p v r) (by rw [h1]; exact h), h1]
+    have h1 := setLeaf_w_not_parked c s p v r h
+    rw [ih (setLeaf c s p v r) (by rw [h1]; exact h), h1]
 
-theorem setLeaves_weight_le (s : Sys) (ps : List (List Nat)) (v : TState) (r : Bool) :
-    (setLeaves s ps v r).w.weight ≤ s.w.weight := by
+theorem setLeaves_left (c : Cfg) (s : Sys) (ps : List (List Nat)) (v : TState) (r : Bool) (h : s.w.inLoop = false) :
+    (setLeaves c s ps v r).w = s.w ∧ (setLeaves c s ps v r).chan = s.chan := by
+  unfold setLeaves
+  induction ps generalizing s with
+  | nil => exact ⟨rfl, rfl⟩
+  | cons p ps ih =>
+    simp only [List.foldl_cons]
+    obtain ⟨h1, h2⟩ := setLeaf_left c s p v r h
+    obtain ⟨h3, h4⟩ := ih (setLeaf c s p v r) (by rw [h1]; exact h)
+    exact ⟨h3.trans h1, h4.trans h2⟩
+
+theorem setLeaves_weight_le (c : Cfg) (s : Sys) (ps : List (List Nat)) (v : TState) (r : Bool) :
+    (setLeaves c s ps v r).w.weight ≤ s.w.weight := by
   unfold setLeaves
   induction ps generalizing s with
   | nil => exact Nat.le_refl _
   | cons p ps ih =>
     simp only [List.foldl_cons]
-    exact Nat.le_trans (ih (setLeaf s p v r)) (setLeaf_weight_le s p v r)
+    exact Nat.le_trans (ih (setLeaf c s p v r)) (setLeaf_weight_le c s p v r)
+
+theorem setLeaves_keeps (c : Cfg) (s : Sys) (ps : List (List Nat)) (v : TState) (r : Bool) (hb : c.buffered = true) :
+    Keeps s (setLeaves c s ps v r) := by
+  unfold setLeaves
+  induction ps generalizing s with
+  | nil => exact Keeps.refl s
+  | cons p ps ih =>
+    simp only [List.foldl_cons]
+    exact (setLeaf_keeps c s p v r hb).trans (ih (setLeaf c s p v r))
 
 /-! ### the environment machine: ERROR is absorbing for everything but RECOVER -/
 
@@ -457,83 +580,131 @@ theorem goError_ok_st (hooks : List Hook) (env : Env) (b r : Bool)
 
 /-! ### the internal steps -/
 
-theorem timerStep_spec (s : Sys) :
-    (timerStep s).env.st = .ERROR ∧ (timerStep s).w = .gone ∧ (timerStep s).inflight = s.inflight ∧
-    (timerStep s).stopReq = s.stopReq ∧ (timerStep s).updq = s.updq := by
+theorem timerStep_spec (c : Cfg) (s : Sys) :
+    (timerStep c s).env.st = .ERROR ∧ (timerStep c s).w = .gone ∧ (timerStep c s).inflight = s.inflight ∧
+    (timerStep c s).stopReq = s.stopReq ∧ (timerStep c s).updq = s.updq ∧ (timerStep c s).chan = s.chan := by
   unfold timerStep
   simp only
-  refine ⟨?_, ?_, ?_, ?_, ?_⟩
-  · rw [(setLeaves_frame _ _ _ _).1]
+  refine ⟨?_, ?_, ?_, ?_, ?_, ?_⟩
+  · rw [(setLeaves_frame _ _ _ _ _).1]
     simp only
     split
     · rename_i hok; exact goError_ok_st _ _ _ _ hok
     · split
       · rename_i h; exact h
       · rfl
-  · rw [setLeaves_w_not_parked _ _ _ _ (by simp)]
-  · rw [(setLeaves_frame _ _ _ _).2.1]
-  · rw [(setLeaves_frame _ _ _ _).2.2.1]
-  · rw [(setLeaves_frame _ _ _ _).2.2.2.2.2]
+  · rw [setLeaves_w_not_parked _ _ _ _ _ (by simp)]
+  · rw [(setLeaves_frame _ _ _ _ _).2.1]
+  · rw [(setLeaves_frame _ _ _ _ _).2.2.1]
+  · rw [(setLeaves_frame _ _ _ _ _).2.2.2.2.2]
+  · rw [(setLeaves_left _ _ _ _ _ (by simp [Watch.inLoop])).2]
 
-theorem devStopStep_frame (s : Sys) (ok r : Bool) :
-    (devStopStep s ok r).env = (tryTransition s.env s.hooks .STOP_ACTIVITY ok false).1 ∧
-    (devStopStep s ok r).inflight = s.inflight ∧ (devStopStep s ok r).stopReq = s.stopReq - 1 ∧
-    (devStopStep s ok r).w.weight ≤ s.w.weight ∧ (s.w ≠ .parked → (devStopStep s ok r).w = s.w) ∧
-    (devStopStep s ok r).updq = s.updq := by
+theorem devStopStep_frame (c : Cfg) (s : Sys) (ok r : Bool) :
+    (devStopStep c s ok r).env = (tryTransition s.env s.hooks .STOP_ACTIVITY ok false).1 ∧
+    (devStopStep c s ok r).inflight = s.inflight ∧ (devStopStep c s ok r).stopReq = s.stopReq - 1 ∧
+    (devStopStep c s ok r).w.weight ≤ s.w.weight ∧ (s.w ≠ .parked → (devStopStep c s ok r).w = s.w) ∧
+    (devStopStep c s ok r).updq = s.updq := by
   unfold devStopStep
   simp only
   split
   · split
     · refine ⟨?_, ?_, ?_, ?_, ?_, ?_⟩
-      · rw [(setLeaves_frame _ _ _ _).1]
-      · rw [(setLeaves_frame _ _ _ _).2.1]
-      · rw [(setLeaves_frame _ _ _ _).2.2.1]
-      · exact setLeaves_weight_le _ _ _ _
-      · intro h; exact setLeaves_w_not_parked _ _ _ _ h
-      · rw [(setLeaves_frame _ _ _ _).2.2.2.2.2]
+      · rw [(setLeaves_frame _ _ _ _ _).1]
+      · rw [(setLeaves_frame _ _ _ _ _).2.1]
+      · rw [(setLeaves_frame _ _ _ _ _).2.2.1]
+      · exact setLeaves_weight_le _ _ _ _ _
+      · intro h; exact setLeaves_w_not_parked _ _ _ _ _ h
+      · rw [(setLeaves_frame _ _ _ _ _).2.2.2.2.2]
     · exact ⟨rfl, rfl, rfl, Nat.le_refl _, fun _ => rfl, rfl⟩
   · exact ⟨rfl, rfl, rfl, Nat.le_refl _, fun _ => rfl, rfl⟩
 
+theorem devStopStep_keeps (c : Cfg) (s : Sys) (ok r : Bool) (hb : c.buffered = true) :
+    Keeps s (devStopStep c s ok r) := by
+  unfold devStopStep
+  simp only
+  split
+  · split
+    · exact setLeaves_keeps c _ _ _ _ hb
+    · exact ⟨rfl, fun _ => rfl⟩
+  · exact ⟨rfl, fun _ => rfl⟩
+
 /-- What the fail step leaves alone. -/
-theorem failOne_frame (k : Kind) (s : Sys) (p : List Nat) (r : Bool) :
-    (failOne k s p r).env = s.env ∧ (failOne k s p r).inflight = s.inflight ∧ (failOne k s p r).hooks = s.hooks ∧
-    (failOne k s p r).stopReq = s.stopReq + (if (effect k s.env.st).stop then 1 else 0) ∧
-    (failOne k s p r).updq = s.updq := by
+theorem failOne_frame (c : Cfg) (k : Kind) (s : Sys) (p : List Nat) (r : Bool) :
+    (failOne c k s p r).env = s.env ∧ (failOne c k s p r).inflight = s.inflight ∧ (failOne c k s p r).hooks = s.hooks ∧
+    (failOne c k s p r).stopReq = s.stopReq + (if (effect k s.env.st).stop then 1 else 0) ∧
+    (failOne c k s p r).updq = s.updq := by
   unfold failOne
   simp only
   refine ⟨?_, ?_, ?_, ?_, ?_⟩
-  · rw [(notify_frame _ _ _).1]
-  · rw [(notify_frame _ _ _).2.2.1]
-  · rw [(notify_frame _ _ _).2.2.2.2.1]
-  · rw [(notify_frame _ _ _).2.2.2.1]
-  · rw [(notify_frame _ _ _).2.2.2.2.2.2.2]
+  · rw [(notify_frame _ _ _ _).1]
+  · rw [(notify_frame _ _ _ _).2.2.1]
+  · rw [(notify_frame _ _ _ _).2.2.2.2.1]
+  · rw [(notify_frame _ _ _ _).2.2.2.1]
+  · rw [(notify_frame _ _ _ _).2.2.2.2.2.2.2]
 
+theorem failOne_weight_le (c : Cfg) (k : Kind) (s : Sys) (p : List Nat) (r : Bool) :
+    (failOne c k s p r).w.weight ≤ s.w.weight := by
+  unfold failOne
+  simp only
+  exact notify_weight_le _ _ _ _
+
+theorem failOne_keeps (c : Cfg) (k : Kind) (s : Sys) (p : List Nat) (r : Bool) (hb : c.buffered = true) :
+    Keeps s (failOne c k s p r) := by
+  unfold failOne
+  simp only
+  exact notify_keeps c _ _ _ hb
 
 /-- The fail step keeps the shape of the tree. -/
-theorem failOne_critLeafAt (k : Kind) (s : Sys) (q : List Nat) (r : Bool) :
-    ∀ p, critLeafAt (failOne k s q r).f p = critLeafAt s.f p := by
+theorem failOne_critLeafAt (c : Cfg) (k : Kind) (s : Sys) (q : List Nat) (r : Bool) :
+    ∀ p, critLeafAt (failOne c k s q r).f p = critLeafAt s.f p := by
   intro p
   unfold failOne
   simp only
-  rw [(notify_frame _ _ _).2.1]
+  rw [(notify_frame _ _ _ _).2.1]
   simp only
   cases (effect k s.env.st).st <;> cases (effect k s.env.st).su <;>
     simp only [critLeafAt_updStatus, critLeafAt_updState]
 
-/-- Where the watcher can be after one fail step of a kind that reports ERROR. -/
-theorem failOne_w (k : Kind) (s : Sys) (q : List Nat) (r : Bool) (hk : k.drives s.env.st = true) :
-    (s.w ≠ .parked → (failOne k s q r).w = s.w) ∧
-    (s.w = .parked → (failOne k s q r).w = .parked ∨ (failOne k s q r).w = .armed) := by
+/-- Unbuffered channel: where the watcher can be after one fail step of a kind that reports ERROR. -/
+theorem failOne_w (c : Cfg) (k : Kind) (s : Sys) (q : List Nat) (r : Bool) (hb : c.buffered = false)
+    (hk : k.drives s.env.st = true) :
+    (s.w ≠ .parked → (failOne c k s q r).w = s.w) ∧
+    (s.w = .parked → (failOne c k s q r).w = .parked ∨ (failOne c k s q r).w = .armed) := by
   have he : (effect k s.env.st).st = some .ERROR := by simpa [Kind.drives] using hk
   unfold failOne
   simp only [he]
   refine ⟨fun h => ?_, fun h => ?_⟩
-  · refine (notify_w_not_parked _ _ _ ?_).1; exact h
+  · refine notify_w_not_parked _ _ _ _ ?_; exact h
   rcases updState_error_cases s.f q with hn | hn
   · rw [hn, notify_none]; exact Or.inl h
   · rw [hn]
     cases r
-    · left; refine (notify_error_busy _ ?_).1; exact h
-    · right; refine notify_error_ready _ ?_; exact h
+    · left; refine (notify_error_busy _ _ hb ?_).1; exact h
+    · right; refine notify_error_ready _ _ hb ?_; exact h
+
+/-- Buffered channel: the failure of a critical task puts ERROR into the watcher's empty channel. -/
+theorem failOne_kept (c : Cfg) (k : Kind) (s : Sys) (p : List Nat) (r : Bool) (hb : c.buffered = true)
+    (hk : k.drives s.env.st = true) (hw : s.w.inLoop = true) (hc : s.chan = none) (hcrit : critLeafAt s.f p = true) :
+    (failOne c k s p r).chan = some .ERROR := by
+  have he : (effect k s.env.st).st = some .ERROR := by simpa [Kind.drives] using hk
+  unfold failOne
+  simp only [he, updState_crit_error s.f p hcrit]
+  exact notify_kept c _ _ _ hb hw hc
+
+/-- Buffered channel: whatever task fails (kind reporting ERROR), the channel stays as it is or
+    gets an ERROR. -/
+theorem failOne_chan (c : Cfg) (k : Kind) (s : Sys) (p : List Nat) (r : Bool) (hb : c.buffered = true)
+    (hk : k.drives s.env.st = true) :
+    (failOne c k s p r).chan = s.chan ∨ (failOne c k s p r).chan = some .ERROR := by
+  have he : (effect k s.env.st).st = some .ERROR := by simpa [Kind.drives] using hk
+  unfold failOne
+  simp only [he]
+  rcases updState_error_cases s.f p with hn | hn
+  · rw [hn, notify_none]; exact Or.inl rfl
+  · rw [hn]
+    unfold notify
+    simp only [hb]
+    repeat' split
+    all_goals simp_all
 
 end Failure
